@@ -456,7 +456,7 @@ impl Property for C20 {
     }
     fn runs(&self, tier: Tier) -> usize {
         match tier {
-            Tier::Quick => 20_000,
+            Tier::Quick => 50_000,
             Tier::Thorough => 400_000,
         }
     }
